@@ -24,6 +24,21 @@ type privStruct struct {
 	C []int
 }
 
+type privEmb struct{ V int }
+
+// PubEmb is the exported twin of privEmb.
+type PubEmb struct{ V int }
+
+type embPriv struct {
+	privEmb
+	N int
+}
+
+type embPub struct {
+	PubEmb
+	N int
+}
+
 type nestStruct struct {
 	S stackage.Stack
 	P *int
@@ -620,6 +635,12 @@ func c08RunElem(c *core.Ctx, n int) {
 	pan, msg, site := Guard(func() {
 		switch role {
 		case "pushed":
+			// (a valid pointer to an alias first: whatever the library remembers about a type from a live value must
+			// not be trusted for a later typed nil of that same type)
+			va, vc := AStack(stackage.And().Push("live")), ACond(stackage.Cond("k", stackage.Eq, "v"))
+			warm := stackage.Or().Push(&va, &vc, va, vc)
+			_ = warm.String()
+			warm.IsNesting()
 			s = stackage.Or().Push("a", aw.New(), "b")
 		case "inserted+replaced":
 			s = stackage.List().Push("a", "b", "c")
@@ -641,6 +662,12 @@ func c08RunElem(c *core.Ctx, n int) {
 			s.IsEqual(aw.New())
 			stackage.Cond("k", stackage.Eq, aw.New()).IsEqual(stackage.Cond("k", stackage.Eq, aw.New()))
 			stackage.Cond("k", stackage.Eq, "v").IsEqual(aw.New())
+			// same-shaped comparands of different struct types (embedded private against embedded public field)
+			for _, pair := range [][2]any{{embPriv{privEmb{1}, 2}, embPub{PubEmb{1}, 2}}, {&embPriv{privEmb{1}, 2}, &embPub{PubEmb{1}, 2}}, {aw.New(), embPub{PubEmb{1}, 2}}} {
+				a, b := stackage.And().Push(pair[0]), stackage.And().Push(pair[1])
+				a.IsEqual(b)
+				b.IsEqual(a)
+			}
 		}
 	})
 	c.Count("element-roles")
